@@ -15,8 +15,8 @@ if [ -f "$DIR/demo.py" ]; then
   (cd "$ROOT/repo" && PYTHONPATH="$ROOT/repo" timeout 300 /venv/bin/python "$DIR/demo.py" >/dev/null 2>&1); echo "demo_with_patch_rc=$?"
   (cd /repo && PYTHONPATH=/repo timeout 300 /venv/bin/python "$DIR/demo.py" >/dev/null 2>&1); echo "demo_without_patch_rc=$?"
 fi
-(cd "$ROOT/verif" && VERIF_REPO="$ROOT/repo" timeout 3000 ./check "$PID" "$TIER" 2>&1 | grep -E "^(VIOLATION|KNOWN-FINDING|\[C)" | cut -c1-400)
-echo "check_rc=${PIPESTATUS[0]}"
+(cd "$ROOT/verif" && VERIF_REPO="$ROOT/repo" timeout 3000 ./check "$PID" "$TIER" > "$ROOT/check.out" 2>&1; echo "check_rc=$?" >> "$ROOT/check.out")
+grep -E "^(VIOLATION|KNOWN-FINDING|\[C|check_rc)" "$ROOT/check.out" | cut -c1-400
 if ls "$ROOT/verif/replays/"*.json >/dev/null 2>&1; then mkdir -p "$DIR/replay"; cp "$ROOT/verif/replays/"*.json "$DIR/replay/" 2>/dev/null; fi
 git -C /repo worktree remove --force "$ROOT/repo"
 rm -rf "$ROOT"
